@@ -235,6 +235,11 @@ def route(ctx: Any) -> List[Ob]:
     st = [s_ for t, s_ in attr_stores(cm.node) if self_attr(t, cm.params[0]) == 'transport']
     obs.append(ob(R, cm, st[0] if st else 'self.transport = ...', 'the protocol remembers the transport it was connected to', len(st) == 1 and cm.params[1] in norm(expand_(cm, st[0].value))))
     obs.extend(fresh_message_obligations(ctx, R))
+    # `seen multicast within a quarter of its TTL` is read from the cached copy of the record: the sighting is recorded in it
+    # before any listener runs
+    from .c06 import sighting_obligations
+
+    obs.extend(sighting_obligations(ctx, R))
     return obs
 
 
